@@ -76,8 +76,9 @@ def confirm(mod, v):
         r2 = mod.replay(case)
     except BaseException as e:
         return 'replay raised %s: %s' % (type(e).__name__, e)
-    k1 = sorted(util.digest([x.get('kind'), x.get('observed')]) for x in r1)
-    k2 = sorted(util.digest([x.get('kind'), x.get('observed')]) for x in r2)
+    # compared on (kind, cause): observations may contain ids that differ between constructions (LALR state numbers)
+    k1 = sorted(util.digest([x.get('kind'), x.get('cause')]) for x in r1)
+    k2 = sorted(util.digest([x.get('kind'), x.get('cause')]) for x in r2)
     if k1 != k2:
         return 'nondeterministic replay'
     return bool(r1)
